@@ -225,10 +225,10 @@ class Ctx:
         except OSError:
             return None
 
-    def run(self, tool, args, env=None, stdin=None, timeout=DEFAULT_TIMEOUT, cwd=None):
+    def run(self, tool, args, env=None, stdin=None, timeout=DEFAULT_TIMEOUT, cwd=None, retry=True):
         exe = self.bins.get(tool, tool)
         r = run_proc([exe] + list(args), cwd or self.dir, env_extra=env, stdin=stdin, timeout=timeout)
-        if r.timed_out:
+        if r.timed_out and retry:
             # re-run once, alone-ish, with a 5x limit: a single expiry is never a verdict
             r2 = run_proc([exe] + list(args), cwd or self.dir, env_extra=env, stdin=stdin, timeout=timeout * 5)
             self.out.execs += 1
@@ -344,6 +344,7 @@ def run_check(mod, tier, seed, only_idx=None, replay_case=None):
     viol = collections.OrderedDict()     # key -> first witness result
     viol_count = collections.Counter()
     inconc = collections.Counter()
+    inconc_detail = []
     samples = []
     ncases = 0
     held_cases = 0
@@ -362,6 +363,8 @@ def run_check(mod, tier, seed, only_idx=None, replay_case=None):
             sigs.update(res['sigs'])
             for r in res['inconclusive']:
                 inconc[r.split(':')[0][:80]] += 1
+                if len(inconc_detail) < 8 and not r.startswith('harness-exception'):
+                    inconc_detail.append({'case_index': res['idx'], 'reason': r[:300], 'case': res['case']})
                 if r.startswith('harness-exception') and obs.get('harness_exceptions', 0) <= 1:
                     sys.stderr.write('HARNESS-EXCEPTION in case %s: %s\n' % (res['idx'], r))
                 if len(samples) < 0:
@@ -418,6 +421,7 @@ def run_check(mod, tier, seed, only_idx=None, replay_case=None):
         'observed': {k: obs[k] for k in sorted(obs)},
         'observed_sets': {k: (sorted(v) if len(v) <= 60 else {'count': len(v), 'first': sorted(v)[:40]}) for k, v in sorted(sets.items())},
         'inconclusive': dict(inconc),
+        'inconclusive_detail': inconc_detail,
         'known_findings_matched': known_hit,
         'violation_keys': [k for k in viol if (pid, k) not in known],
         'exhaustive': bool(getattr(mod, 'EXHAUSTIVE', False)),
